@@ -134,9 +134,9 @@ func fieldOf(msg []byte, h *hello.Hello, off int) string {
 func TestC02(t *testing.T) {
 	rec := ev.Get("C02")
 	thorough := os.Getenv("VERIF_TIER") == "thorough"
-	rec.Rule("valid sealed tuples (C03 generator); per tuple: positive control, then single-bit flips of the ClientHello message body (quick: 96 sampled bits; thorough: every bit), header flips (tolerant), and the substitutions wrong key (same/other id), wrong info (config differing in public name / suites / id with the same private key; concatenation of two held configs of the same id), suite named != suite used, wrong config id, enc/payload truncated/extended/swapped, AAD over a different session id, and length-consistent structural alterations (bytes appended inside the ECH extension, extension added/removed/grown/swapped, cipher suite, session id, compression method changed). Oracle: never accepted; fall-back byte-exact when the mutated message is still well-formed. distinct = (hello hash, mutation); every mutation is non-trivial")
+	rec.Rule("valid sealed tuples (C03 generator); per tuple: positive control, then single-bit flips of the ClientHello message body (quick: 96 sampled bits; thorough: every bit), header flips (tolerant), and the substitutions wrong key (same/other id), wrong info (config differing in public name / suites / id with the same private key; concatenation of two held configs of the same id), suite named != suite used, wrong config id, enc/payload truncated/extended/swapped, AAD over a different session id, and length-consistent structural alterations (bytes appended inside the ECH extension, extension added/removed/grown/swapped, cipher suite, session id, compression method changed). In a third of the cases one or two keys with unparseable configs are inserted into the server's key list for the negative checks. Oracle: never accepted; fall-back byte-exact when the mutated message is still well-formed. distinct = (hello hash, mutation); every mutation is non-trivial")
 	rec.Mandatory("flip:random", "flip:session_id", "flip:cipher_suites", "flip:ext_header", "flip:sni_body", "flip:ech_suite", "flip:ech_config_id", "flip:ech_enc", "flip:ech_payload", "flip:versions_body",
-		"sub:wrong_key_same_id", "sub:wrong_key_other_id", "sub:wrong_info_public_name", "sub:wrong_info_suites", "sub:suite_mismatch", "sub:wrong_config_id", "sub:enc_truncated", "sub:payload_truncated", "sub:payload_extended", "sub:payload_swapped", "sub:aad_other_sid", "sub:suite_not_offered", "sub:wrong_config_id_sealed", "sub:wrong_info_concatenated_configs",
+		"sub:wrong_key_same_id", "sub:wrong_key_other_id", "sub:wrong_info_public_name", "sub:wrong_info_suites", "sub:suite_mismatch", "sub:wrong_config_id", "sub:enc_truncated", "sub:payload_truncated", "sub:payload_extended", "sub:payload_swapped", "sub:aad_other_sid", "sub:suite_not_offered", "sub:wrong_config_id_sealed", "sub:wrong_info_concatenated_configs", "unparseable_key_configs_in_list",
 		"struct:ech_ext_trailing_bytes", "struct:extension_added", "struct:extensions_swapped", "struct:extension_removed", "struct:extension_grown", "struct:cipher_suite_appended", "struct:session_id_changed", "struct:compression_appended")
 	rapid.Check(t, func(t *rapid.T) {
 		sc := drawSealed(t, false)
@@ -153,8 +153,43 @@ func TestC02(t *testing.T) {
 		if err != nil {
 			t.Fatalf("harness: cannot parse own outer: %v", err)
 		}
+		// keys whose config does not parse (unknown version, truncated) may sit anywhere in the
+		// server's list: they never make a hello acceptable
+		junkPriv := drawKey(t, "junkkey", -1, "junk.example")
+		mkJunk := func(kind int) *hello.Key {
+			cfg := append([]byte{}, sc.Key.Config...)
+			switch kind {
+			case 0:
+				cfg[0], cfg[1] = 0xfe, 0x0c // version of an older draft
+			case 1:
+				cfg = cfg[:len(cfg)-3]
+			default:
+				cfg = []byte{0xfe, 0x0d, 0, 1, 7}
+			}
+			return &hello.Key{Priv: junkPriv.Priv, ID: sc.Key.ID, PublicName: sc.Key.PublicName, Suites: sc.Key.Suites, Config: cfg}
+		}
+		nJunk := 0
+		if rapid.IntRange(0, 2).Draw(t, "junk_keys") == 0 {
+			nJunk = rapid.IntRange(1, 2).Draw(t, "n_junk")
+		}
+		junkKind := rapid.IntRange(0, 2).Draw(t, "junk_kind")
+		junkAt := rapid.IntRange(0, 3).Draw(t, "junk_pos")
+		withJunk := func(ks []*hello.Key) []*hello.Key {
+			if nJunk == 0 {
+				return ks
+			}
+			pos := min(junkAt, len(ks))
+			out := append([]*hello.Key{}, ks[:pos]...)
+			for i := 0; i < nJunk; i++ {
+				out = append(out, mkJunk((junkKind+i)%3))
+			}
+			return append(out, ks[pos:]...)
+		}
+		if nJunk > 0 {
+			rec.Class("unparseable_key_configs_in_list")
+		}
 		one := func(label, what string, record []byte) {
-			out := checkNotAccepted(t, "C02", keys, record, what)
+			out := checkNotAccepted(t, "C02", withJunk(keys), record, what)
 			rec.Case(hk+"/"+what, true, []string{label, "outcome:" + out}, func() any {
 				return map[string]any{"hello_len": len(sc.OuterMsg), "mutation": what, "outcome": out}
 			})
